@@ -325,7 +325,7 @@ package raft
 //@     : (l.unstable.snapshot != nil ? snapIndex(l.unstable.snapshot) : st_last(l.storage))
 //@ spec opaque log_term(l *raftLog, i int) uint64 := i >= l.unstable.offset ? eterm(l.unstable.entries[i - l.unstable.offset])
 //@     : ((l.unstable.snapshot != nil && snapIndex(l.unstable.snapshot) == i) ? snapTerm(l.unstable.snapshot) : st_term(l.storage, i))
-//@ spec log_ent(l *raftLog, i int) *pb.Entry := i >= l.unstable.offset ? l.unstable.entries[i - l.unstable.offset] : st_ent(l.storage, i)
+//@ spec opaque log_ent(l *raftLog, i int) *pb.Entry := i >= l.unstable.offset ? l.unstable.entries[i - l.unstable.offset] : st_ent(l.storage, i)
 //@ pred log_has(l *raftLog, i int) := log_first(l) <= i + 1 && i <= log_last(l)
 
 //@ pred opaque wf_raftLog(l *raftLog) := l != nil && wf_unstable(&l.unstable) && wf_storage(l.storage)
@@ -503,7 +503,7 @@ package raft
 
 //@ func raft.raftLog.append [C03 C01 C14]
 //@   reveal wf_raftLog, wf_unstable, wf_storage
-//@   reveal log_term
+//@   reveal log_term, log_ent
 //@   requires wf_raftLog(l)
 //@   requires #ents len(ents) > 0 ==> contiguous(ents) && termsMonotone(ents) && eindex(ents[0]) + len(ents) < 9223372036854775808 && eindex(ents[0]) >= 1
 //@   requires #above-commit [C01 C14] len(ents) > 0 ==> eindex(ents[0]) - 1 >= l.committed
@@ -514,6 +514,10 @@ package raft
 //@   ensures #last [C03] result == log_last(l) && (len(ents) > 0 ==> log_last(l) == old(eindex(ents[0])) + len(ents) - 1) && (len(ents) == 0 ==> log_last(l) == old(log_last(l)))
 //@   ensures #prefix-stable [C01 C03] forall i int :: i < (len(ents) > 0 ? old(eindex(ents[0])) : old(log_last(l)) + 1) && old(log_has(l, i)) ==> log_has(l, i) && log_term(l, i) == old(log_term(l, i))
 //@   ensures #appended [C03] forall p int, i int :: ents.off <= p && p < ents.off + len(ents) && i == old(eindex(ents[0])) + (p - ents.off) ==> log_has(l, i) && log_term(l, i) == old(eterm(elem(ents, p)))
+//@   ensures #appended-at [C03] forall i int :: {log_term(l, i)} len(ents) > 0 && old(eindex(ents[0])) <= i && i < old(eindex(ents[0])) + len(ents)
+//@        ==> log_has(l, i) && log_term(l, i) == old(eterm(elem(ents, ents.off + (i - eindex(ents[0])))))
+//@   ensures #appended-entries-at [C03 C20] forall i int :: {log_ent(l, i)} len(ents) > 0 && old(eindex(ents[0])) <= i && i < old(eindex(ents[0])) + len(ents)
+//@        ==> log_ent(l, i) == old(elem(ents, ents.off + (i - eindex(ents[0]))))
 //@   ensures #cursors log_cursors_kept(l) && l.storage == old(l.storage)
 //@   ensures #wf wf_raftLog(l)
 
@@ -925,3 +929,47 @@ package raft
 //@   ensures #deferred-untouched [C05] r.msgsAfterAppend == old(r.msgsAfterAppend)
 //@   ensures #rest raft_kept_but_msgs(r) && r.raftLog.committed == old(r.raftLog.committed)
 //@   ensures #wf wf_raft(r) && hs_monotone(r)
+
+//@ func raft.raft.sendAppend [C16]
+//@   requires wf_raft(r) && r.state == StateLeader
+//@   requires #peer [C14] has(r.trk.Progress, to) && to != r.id && progress_in_log(r, r.trk.Progress[to])
+//@   ensures #at-most-one [C16] len(r.msgs) <= old(len(r.msgs)) + 1 && len(r.msgs) >= old(len(r.msgs))
+//@   ensures #deferred-untouched [C05] r.msgsAfterAppend == old(r.msgsAfterAppend)
+//@   ensures #match-kept [C06] r.trk.Progress[to].Match == old(r.trk.Progress[to].Match) && r.trk.Progress == old(r.trk.Progress)
+//@   ensures #rest raft_kept_but_msgs(r) && r.raftLog.committed == old(r.raftLog.committed)
+//@   ensures #wf wf_raft(r) && hs_monotone(r)
+
+//@ -- the entries raft itself originates: clones of the proposed entries stamped with (Term, last+1+i); payload and type untouched (C20)
+//@ func raft.raft.appendEntry [C20 C03 C05 C16]
+//@   requires wf_raft(r) && r.state == StateLeader
+//@   requires #ents forall p int :: es.off <= p && p < es.off + len(es) ==> elem(es, p) != nil
+//@   requires #term-not-behind-log [C03] log_term(r.raftLog, log_last(r.raftLog)) <= r.Term && r.Term >= 1
+//@   requires #a-arith r.uncommittedSize < 4611686018427387904 && log_last(r.raftLog) + len(es) < 4611686018427387904
+//@   reveal wf_raftLog, wf_unstable, wf_storage, termsMonotone
+//@   after raft.raftLog.append assert #h-last result == old(log_last(r.raftLog)) + len(es) && log_last(r.raftLog) == result
+//@   after raft.raftLog.append assert #h-terms forall i int :: old(log_last(r.raftLog)) < i && i <= log_last(r.raftLog) ==> log_term(r.raftLog, i) == r.Term
+//@   after raft.raftLog.append assert #h-faithful forall i int :: {log_ent(r.raftLog, i)} old(log_last(r.raftLog)) < i && i <= log_last(r.raftLog) ==>
+//@        log_ent(r.raftLog, i) != nil && log_ent(r.raftLog, i).GetType() == old(elem(es, es.off + (i - log_last(r.raftLog) - 1)).GetType())
+//@        && len(log_ent(r.raftLog, i).Data) == old(len(elem(es, es.off + (i - log_last(r.raftLog) - 1)).Data))
+//@   after raft.raftLog.append assert #h-prefix forall i int :: i <= old(log_last(r.raftLog)) && old(log_has(r.raftLog, i)) ==> log_has(r.raftLog, i) && log_term(r.raftLog, i) == old(log_term(r.raftLog, i))
+//@   ensures #dropped-untouched [C20 C16] !accepted ==> log_last(r.raftLog) == old(log_last(r.raftLog)) && r.msgs == old(r.msgs) && r.msgsAfterAppend == old(r.msgsAfterAppend)
+//@        && r.uncommittedSize == old(r.uncommittedSize) && r.raftLog.unstable.entries == old(r.raftLog.unstable.entries) && r.raftLog.unstable.offset == old(r.raftLog.unstable.offset)
+//@   ensures #appended [C20 C03] accepted ==> log_last(r.raftLog) == old(log_last(r.raftLog)) + len(es)
+//@        && (forall i int :: old(log_last(r.raftLog)) < i && i <= log_last(r.raftLog) ==> log_term(r.raftLog, i) == r.Term)
+//@   ensures #faithful [C20] accepted ==> (forall i int :: {log_ent(r.raftLog, i)} old(log_last(r.raftLog)) < i && i <= log_last(r.raftLog) ==>
+//@        log_ent(r.raftLog, i) != nil && log_ent(r.raftLog, i).GetType() == old(elem(es, es.off + (i - log_last(r.raftLog) - 1)).GetType())
+//@        && len(log_ent(r.raftLog, i).Data) == old(len(elem(es, es.off + (i - log_last(r.raftLog) - 1)).Data)))
+//@   ensures #inputs-untouched [C20] forall p int, e *pb.Entry :: es.off <= p && p < es.off + len(es) && e == old(elem(es, p)) ==> e.GetTerm() == old(e.GetTerm())
+//@        && e.GetIndex() == old(e.GetIndex()) && e.GetType() == old(e.GetType()) && len(e.Data) == old(len(e.Data))
+//@   ensures #self-ack-deferred [C05] accepted ==> len(r.msgsAfterAppend) == old(len(r.msgsAfterAppend)) + 1 && r.msgs == old(r.msgs)
+//@        && r.msgsAfterAppend[old(len(r.msgsAfterAppend))].GetType() == pb.MsgAppResp && r.msgsAfterAppend[old(len(r.msgsAfterAppend))].GetTo() == r.id
+//@        && r.msgsAfterAppend[old(len(r.msgsAfterAppend))].GetIndex() == log_last(r.raftLog)
+//@   ensures #match-untouched [C05 C06] r.trk.Progress == old(r.trk.Progress) && (has(r.trk.Progress, r.id) ==> r.trk.Progress[r.id].Match == old(r.trk.Progress[r.id].Match))
+//@   ensures #committed-prefix-stable [C01] forall i int :: i <= old(log_last(r.raftLog)) && old(log_has(r.raftLog, i)) ==> log_has(r.raftLog, i) && log_term(r.raftLog, i) == old(log_term(r.raftLog, i))
+//@   ensures #rest r.Term == old(r.Term) && r.Vote == old(r.Vote) && r.state == old(r.state) && r.lead == old(r.lead) && r.raftLog.committed == old(r.raftLog.committed)
+//@   ensures #wf wf_raft(r) && hs_monotone(r)
+//@   loop 1 invariant #frame allocframe("F$raftpb.Entry", "C$uint64", "C$raftpb.EntryType", "E$uint8", "E$*raftpb.Entry")
+//@   loop 1 invariant #cloned 0 <= iter && iter <= len(es) && len(cloned) == len(es) && fresh(cloned) && li == old(log_last(r.raftLog))
+//@        && (forall p int :: cloned.off <= p && p < cloned.off + iter ==> elem(cloned, p) != nil && fresh(elem(cloned, p)) && eindex(elem(cloned, p)) == li + 1 + (p - cloned.off) && eterm(elem(cloned, p)) == r.Term)
+//@   loop 1 invariant #same-payload forall p int :: {elem(cloned, p)} cloned.off <= p && p < cloned.off + iter ==>
+//@        elem(cloned, p).GetType() == elem(es, es.off + (p - cloned.off)).GetType() && len(elem(cloned, p).Data) == len(elem(es, es.off + (p - cloned.off)).Data)
